@@ -156,6 +156,15 @@ def run_case(case, ctx):
         d = same(r3.value, exp[np.ix_(sel, sel)], dtype=False)
         if d:
             ctx.violation('default_ids_mismatch', case, d, feats)
+    # (3b) firing rate with the default (sorted present) cluster list
+    r3b = call(firing_rate, spike_clusters, bin_size=bin_size, duration=2.0)
+    if not r3b.ok:
+        ctx.violation('raised', case, 'firing_rate(cluster_ids=None) raised %r' % r3b.exc, feats, tb=r3b.tb)
+    else:
+        cnt = np.array([(spike_clusters == c).sum() for c in present], dtype=np.float64)
+        d = same(r3b.value, np.outer(cnt, cnt) * (bin_size / 2.0), dtype=False, rtol=1e-12)
+        if d:
+            ctx.violation('firing_rate_mismatch', case, 'default ids: ' + d, feats)
     # (4) firing rate
     duration = float(max(1, samples[-1] - samples[0] + 1)) / rate
     r4 = call(firing_rate, spike_clusters, cluster_ids=list(id_list), bin_size=bin_size,
